@@ -415,6 +415,31 @@ def subst_action_ok(lex, r, scname):
         sc = [x for x in ap.of('call') if x[1] == 'strchr']
         if not sc or not (sc[0][2][1] == ('c', ord(':'))):
             return 'no search for ":" (the ":-default" form)'
+    # the default is used exactly when getenv() returned NULL; the value exactly when it did not
+    for ap in aps:
+        g = ap.of('getenv')[0][2]
+        gres = g.res
+        nf = {}
+        for cn, t, _ in ap.path.assume:
+            if cn[0] == 'icmp' and cn[1] in ('eq', 'ne') and sym.C0 in (cn[2], cn[3]):
+                v = cn[2] if cn[3] == sym.C0 else cn[3]
+                nf[v] = ((cn[1] == 'eq') == t)
+        src = None
+        y = ap.yylval()
+        vals = [x[1] for x in ap.of('qputc')] + ([y] if (y is not None and ap.returns) else [])
+        for v in vals:
+            if sym.mentions(v, lambda x: x == gres):
+                src = 'value'
+            elif sym.mentions(v, lambda x: x[0] == 'call' and x[1] == 'strchr'):
+                src = src or 'default'
+        if src == 'default' and nf.get(gres) is not True:
+            return 'the ":-default" text is used on a path where getenv() did not return NULL (a variable that is set, e.g. to the empty string, must win)'
+        if src == 'value' and nf.get(gres) is not False:
+            return 'the environment value is used without testing it against NULL'
+        if src is None and nf.get(gres) is False:
+            # variable set: nothing emitted only if it is empty (the copy loop ran zero times) - the path must have looked at *var
+            if not any(sym.mentions(cn, lambda x: x[0] == 'ld' and x[1] == gres) for cn, t, _ in ap.path.assume):
+                return 'a set variable yields nothing without its value having been examined'
     classes = set(lexmodel.classify_path(a) for a in aps)
     if scname == 'INITIAL':
         # three outcomes: value, default (pointer after ":-"), empty string
